@@ -78,7 +78,6 @@ ChangesB(dk, v, b) ==
 ChangesG(dk, v, b) ==
     LET was(p) == b[p].k = "file"
         is(p) == v[p] # "no"
-        nk(p) == IF dk[p].k = "dir" THEN "none" ELSE dk[p].k      \* an index entry whose path is no file any more
     IN {Chg(p, "", TRUE, "file", "none", b[p].e, FALSE) : p \in {q \in Paths : was(q) /\ ~is(q)}} \cup
        {Chg("", p, TRUE, "none", dk[p].k, FALSE, dk[p].e) : p \in {q \in Paths : is(q) /\ ~was(q)}} \cup
        {r \in {Chg(p, p, dk[p].k # "file" \/ dk[p].c # b[p].c \/ dk[p].e # b[p].e, "file", dk[p].k, b[p].e, dk[p].e)
@@ -153,6 +152,7 @@ Remove(p, mode) == /\ p \in Paths /\ Step(RemoveRes(p, mode))
 \* bzr: identity of the source: its id, or - "rename even if the source was already unversioned"
 \* (per_workingtree test_rename_one_after_source_removed) - the id the path has in the basis
 BzrFromId(src) == IF ver[src] # "no" THEN ver[src] ELSE IF basis[src].k # "none" THEN src ELSE "no"
+BzrResPath(src) == IF Par(src) = "" THEN src ELSE Join(CHOOSE q \in Paths : ver[q] = Par(src), Name(src))
 BzrDoMove(src, dst, id) ==
     LET v0 == [ver EXCEPT ![src] = id]
         hs == Has(disk, src)
@@ -162,6 +162,10 @@ BzrRenameRes(src, dst) ==
     IF id = "no" THEN Rej("rejected:source-not-versioned")
     ELSE IF ver[src] = "no" /\ \E q \in Paths : ver[q] = id THEN Rej("rejected:source-identity-lives-elsewhere")
     ELSE IF ver[src] = "no" /\ ~(Par(src) = "" \/ \E q \in Paths : ver[q] = Par(src)) THEN Rej("rejected:basis-parent-gone")
+    \* the entry taken from the basis first re-appears below the directory that carries its basis parent's id
+    ELSE IF ver[src] = "no" /\ (BzrResPath(src) = dst \/ (BzrResPath(src) # src /\ BzrResPath(src) \in Paths
+                                                          /\ ver[BzrResPath(src)] # "no"))
+         THEN Rej("rejected:resurrected-entry-in-the-way")
     ELSE IF ver[dst] # "no" THEN Rej("rejected:target-versioned")
     ELSE IF Has(disk, src) = Has(disk, dst) THEN Rej("rejected:both-or-neither-exist")
     ELSE IF ~VerB(ver, Par(dst)) THEN Rej("rejected:target-directory-not-versioned")
@@ -269,7 +273,7 @@ RejectedIsNoop == [][Rejected(last') => obs' = obs]_vars
 \* directly after commit / revert the tree has no changes against its basis
 CommitIsClean == [][Commit => obs'.changes = {}]_vars
 RevertIsClean == [][Revert => obs'.changes = {} /\ \A p \in Paths : basis[p].k # "none" => disk'[p] = basis[p]]_vars
-\* anti-vacuity witnesses
+\* anti-vacuity witnesses (the harness looks for such states in the graph TLC dumps; usable as INVARIANTs by hand)
 WitnessRenameReported == ~(\E r \in obs.changes : r.o # "" /\ r.n # "" /\ r.o # r.n)
 WitnessRejected == ~Rejected(last)
 WitnessKindChange == ~(\E r \in obs.changes : r.ko = "file" /\ r.kn = "dir")
